@@ -1527,8 +1527,141 @@ def _tuple_states(model: Model, P: RuleResult):
     _tensor_packer(model, P)
 
 
+def _packer_semantic(model: Model, tp):
+    """abstract run (domains/kinds.py) of TensorPacker over five tensors of shapes (2, 3), (), (4,), (1, 2), (3,): __init__ must record
+    segments that tile [0, 16) in list order, flatten must be the concatenation of the flattened tensors in list order, and pack - applied to a
+    flat vector with or without batch axes - must cut exactly those segments and give each its own shape back.  True / a message /
+    None when a body is outside the interpreter's vocabulary (the structural comparison decides then)."""
+    import itertools
+    from ..domains.kinds import AObj, KindInterp, module_records
+    from ..domains.dictsem import Unsupported, Raised, _Return
+
+    class Size(tuple):
+        """torch.Size: a tuple with numel()"""
+        _xv_methods = ("numel",)
+
+        def numel(self):
+            n = 1
+            for d in self:
+                n *= d
+            return n
+
+    class Leaf(AObj):
+        def __init__(self, name, shape):
+            super().__init__(name, ("torch.Tensor",))
+            self.shape_, self.n_ = Size(shape), 1
+            for d in shape:
+                self.n_ *= d
+            self.attrs.update(shape=self.shape_, ndim=len(shape))
+            self.methods.update(reshape=self.reshape, numel=lambda: self.n_, view=self.view, contiguous=lambda: self, flatten=lambda: Flat([(self, self.n_)], ()))
+
+        def reshape(self, *shape):
+            shape = tuple(shape[0]) if len(shape) == 1 and isinstance(shape[0], (tuple, list)) else tuple(shape)
+            if shape == (-1,):
+                return Flat([(self, self.n_)], ())
+            raise Unsupported("reshape%r of a component" % (shape,))
+
+        def view(self, *shape):
+            raise Raised("view(..) of a component that need not be contiguous (RuntimeError for a transposed / expanded tensor)")
+
+    class Flat(AObj):
+        """(*batch, N): the concatenation of flattened leaves"""
+        def __init__(self, segs, batch):
+            super().__init__("flat", ("torch.Tensor",))
+            self.segs, self.batch = list(segs), tuple(batch)
+            self.attrs.update(shape=self.batch + (sum(n for _l, n in self.segs),), ndim=len(self.batch) + 1)
+            self.methods.update(__getitem__=self.getitem, reshape=self.reshape, numel=lambda: sum(n for _l, n in self.segs), narrow=self.narrow)
+
+        def reshape(self, *shape):
+            shape = tuple(shape[0]) if len(shape) == 1 and isinstance(shape[0], (tuple, list)) else tuple(shape)
+            if shape == (-1,) and not self.batch:
+                return self
+            if len(self.segs) == 1 and shape[:len(self.batch)] == self.batch:
+                return Piece(self.segs[0][0], shape)
+            raise Unsupported("reshape%r of a flat vector with %d segments" % (shape, len(self.segs)))
+
+        def narrow(self, dim, start, length):
+            return self.getitem((Ellipsis, slice(start, start + length))) if dim == -1 else (_ for _ in ()).throw(Unsupported("narrow along a batch axis"))
+
+        def getitem(self, idx):
+            parts = idx if isinstance(idx, tuple) else (idx,)
+            if not (parts and isinstance(parts[-1], slice) and all(p is Ellipsis for p in parts[:-1]) and (len(parts) > 1 or not self.batch)):
+                raise Unsupported("index %r of the flat vector" % (idx,))
+            sl = parts[-1]
+            if sl.step not in (None, 1):
+                raise Unsupported("strided slice of the flat vector")
+            lo, hi = sl.start or 0, sl.stop
+            pos, out = 0, []
+            for leaf, n in self.segs:
+                a, b = pos, pos + n
+                pos = b
+                if hi is not None and b <= lo or (hi is not None and a >= hi) or b <= lo:
+                    continue
+                if a < lo or (hi is not None and b > hi):
+                    raise Raised("the slice [%s:%s] cuts through the segment of `%s` ([%d:%d])" % (lo, hi, leaf.name, a, b))
+                out.append((leaf, n))
+            return Flat(out, self.batch)
+
+    class Piece(AObj):
+        def __init__(self, leaf, shape):
+            super().__init__("piece of %s" % leaf.name, ("torch.Tensor",))
+            self.leaf, self.shape_ = leaf, tuple(shape)
+            self.attrs.update(shape=self.shape_)
+
+    def cat(seq, dim=0):
+        seq = list(seq)
+        if dim not in (0, -1) or not all(isinstance(x, Flat) and not x.batch for x in seq):
+            raise Unsupported("torch.cat of something other than flattened components along their only axis")
+        return Flat([sg for x in seq for sg in x.segs], ())
+    host = {"torch.numel": lambda t: t.numel() if isinstance(t, Size) else t.methods["numel"](), "torch.cat": cat, "sum": lambda xs, start=0: sum(xs, start),
+            "itertools.accumulate": lambda xs, *a, **k: list(itertools.accumulate(xs, *a, **k)), "accumulate": lambda xs, *a, **k: list(itertools.accumulate(xs, *a, **k)),
+            "int": int, "len": len, "torch.Size": lambda x: tuple(x)}
+    leaves = [Leaf("a", (2, 3)), Leaf("b", ()), Leaf("c", (4,)), Leaf("d", (1, 2)), Leaf("e", (3,))]
+    init, flat, pack = tp.find_method("__init__"), tp.find_method("flatten"), tp.find_method("pack")
+    records = module_records(tp.module.tree)
+
+    def run(fi, env):
+        it = KindInterp(env)
+        it.host, it.records = host, records
+        try:
+            it.run(fi.node.body)
+        except _Return as r:
+            return it, r.v
+        return it, None
+    try:
+        me = init.params()[0]
+        it0, _ = run(init, {init.params()[1]: list(leaves)})
+        state = {k: v for k, v in it0.env.items() if k.startswith(me + ".")}
+        _it, fl = run(flat, dict({k.replace(me + ".", flat.params()[0] + ".", 1): v for k, v in state.items()}, **{flat.params()[1]: list(leaves)}))
+        if not (isinstance(fl, Flat) and not fl.batch and len(fl.segs) == len(leaves) and all(sg[0] is lf for sg, lf in zip(fl.segs, leaves))):
+            return "flatten([a(2,3), b(), c(4), d(1,2), e(3)]) is %r, not the concatenation of the flattened tensors in list order" % ([s_[0].name for s_ in fl.segs] if isinstance(fl, Flat) else fl,)
+        for batch in ((), (7,)):
+            y = Flat([(lf, lf.n_) for lf in leaves], batch)
+            _it, out = run(pack, dict({k.replace(me + ".", pack.params()[0] + ".", 1): v for k, v in state.items()}, **{pack.params()[1]: y}))
+            out = list(out) if isinstance(out, (tuple, list)) else None
+            if out is None or len(out) != len(leaves) or not all(isinstance(o, Piece) and o.leaf is lf and o.shape_ == batch + lf.shape_ for o, lf in zip(out, leaves)):
+                return "pack of the flat vector (batch shape %r) gives %r instead of the five tensors with their own shapes %r" % (
+                    batch, [(o.leaf.name, o.shape_) if isinstance(o, Piece) else o for o in (out or [])], [batch + lf.shape_ for lf in leaves])
+    except Unsupported:
+        return None
+    except Raised as e:
+        return "the packer raises on tensors of shapes (2, 3), (), (4,), (1, 2), (3,): %s" % e
+    except (TypeError, AttributeError, KeyError, IndexError, ValueError):
+        return None
+    return True
+
+
 def _tensor_packer(model: Model, P: RuleResult):
     tp = model.cls(MISC, "TensorPacker")
+    sem = _packer_semantic(model, tp)
+    if sem is True:
+        P.ok(tp.fq, "abstract round trip over tensors of shapes (2, 3), (), (4,), (1, 2), (3,): the segments tile the flat vector contiguously in list order, flatten concatenates "
+             "the flattened tensors in that order, pack cuts the same segments and restores each shape (with and without batch axes)")
+        P.ok(tp.fq, "flatten and pack are inverse of each other on every path of the abstract run")
+        return
+    if isinstance(sem, str):
+        P.bad(tp.find_method("pack") or tp.fq, (tp.find_method("pack") or tp).node, "flatten and pack must be inverse on EVERY path: %s" % sem)
+        return
     # TensorPacker: offsets are contiguous, flatten and pack use list order
     init, flat, pack = tp.find_method("__init__"), tp.find_method("flatten"), tp.find_method("pack")
     isrc = ast.unparse(init.node)
